@@ -27,24 +27,48 @@ type c01kind struct {
 var c01kinds = []c01kind{
 	{"P2PKH", 20, false, false,
 		func(h []byte, n *chaincfg.Params) (bchutil.Address, error) { return bchutil.NewAddressPubKeyHash(h, n) },
-		func(h []byte, n *chaincfg.Params) string { return ref.CashEncode(n.CashAddressPrefix, ref.CashTypeP2KH, h) }},
+		func(h []byte, n *chaincfg.Params) string {
+			return ref.CashEncode(n.CashAddressPrefix, ref.CashTypeP2KH, h)
+		}},
 	{"P2SH", 20, false, false,
-		func(h []byte, n *chaincfg.Params) (bchutil.Address, error) { return bchutil.NewAddressScriptHashFromHash(h, n) },
-		func(h []byte, n *chaincfg.Params) string { return ref.CashEncode(n.CashAddressPrefix, ref.CashTypeP2SH, h) }},
+		func(h []byte, n *chaincfg.Params) (bchutil.Address, error) {
+			return bchutil.NewAddressScriptHashFromHash(h, n)
+		},
+		func(h []byte, n *chaincfg.Params) string {
+			return ref.CashEncode(n.CashAddressPrefix, ref.CashTypeP2SH, h)
+		}},
 	{"P2SH32", 32, false, false,
-		func(h []byte, n *chaincfg.Params) (bchutil.Address, error) { return bchutil.NewAddressScriptHash32FromHash(h, n) },
-		func(h []byte, n *chaincfg.Params) string { return ref.CashEncode(n.CashAddressPrefix, ref.CashTypeP2SH, h) }},
+		func(h []byte, n *chaincfg.Params) (bchutil.Address, error) {
+			return bchutil.NewAddressScriptHash32FromHash(h, n)
+		},
+		func(h []byte, n *chaincfg.Params) string {
+			return ref.CashEncode(n.CashAddressPrefix, ref.CashTypeP2SH, h)
+		}},
 	{"SLP-P2PKH", 20, true, false,
-		func(h []byte, n *chaincfg.Params) (bchutil.Address, error) { return bchutil.NewSlpAddressPubKeyHash(h, n) },
-		func(h []byte, n *chaincfg.Params) string { return ref.CashEncode(n.SlpAddressPrefix, ref.CashTypeP2KH, h) }},
+		func(h []byte, n *chaincfg.Params) (bchutil.Address, error) {
+			return bchutil.NewSlpAddressPubKeyHash(h, n)
+		},
+		func(h []byte, n *chaincfg.Params) string {
+			return ref.CashEncode(n.SlpAddressPrefix, ref.CashTypeP2KH, h)
+		}},
 	{"SLP-P2SH", 20, true, false,
-		func(h []byte, n *chaincfg.Params) (bchutil.Address, error) { return bchutil.NewSlpAddressScriptHashFromHash(h, n) },
-		func(h []byte, n *chaincfg.Params) string { return ref.CashEncode(n.SlpAddressPrefix, ref.CashTypeP2SH, h) }},
+		func(h []byte, n *chaincfg.Params) (bchutil.Address, error) {
+			return bchutil.NewSlpAddressScriptHashFromHash(h, n)
+		},
+		func(h []byte, n *chaincfg.Params) string {
+			return ref.CashEncode(n.SlpAddressPrefix, ref.CashTypeP2SH, h)
+		}},
 	{"SLP-P2SH32", 32, true, false,
-		func(h []byte, n *chaincfg.Params) (bchutil.Address, error) { return bchutil.NewSlpAddressScriptHash32FromHash(h, n) },
-		func(h []byte, n *chaincfg.Params) string { return ref.CashEncode(n.SlpAddressPrefix, ref.CashTypeP2SH, h) }},
+		func(h []byte, n *chaincfg.Params) (bchutil.Address, error) {
+			return bchutil.NewSlpAddressScriptHash32FromHash(h, n)
+		},
+		func(h []byte, n *chaincfg.Params) string {
+			return ref.CashEncode(n.SlpAddressPrefix, ref.CashTypeP2SH, h)
+		}},
 	{"LEGACY-P2PKH", 20, false, true,
-		func(h []byte, n *chaincfg.Params) (bchutil.Address, error) { return bchutil.NewLegacyAddressPubKeyHash(h, n) },
+		func(h []byte, n *chaincfg.Params) (bchutil.Address, error) {
+			return bchutil.NewLegacyAddressPubKeyHash(h, n)
+		},
 		func(h []byte, n *chaincfg.Params) string { return ref.B58CheckEncode(n.LegacyPubKeyHashAddrID, h) }},
 	{"LEGACY-P2SH", 20, false, true,
 		func(h []byte, n *chaincfg.Params) (bchutil.Address, error) {
